@@ -259,6 +259,21 @@ def run_requests(binary, requests, workdir, procs=12):
     with ThreadPoolExecutor(max_workers=procs) as ex:
         for o in ex.map(one, enumerate(chunks)):
             res.update(o)
+    # a time-out under machine load is not a hang: repeat each one alone with a generous budget
+    slow = [r for r in requests if "timeout" in res.get(r["rid"], {})]
+    for k, r in enumerate(slow[:50]):
+        rq = os.path.join(workdir, "rq-slow-%d.ndjson" % k)
+        oc = os.path.join(workdir, "oc-slow-%d.ndjson" % k)
+        with open(rq, "w") as f:
+            f.write(json.dumps(r) + "\n")
+        env = dict(os.environ)
+        env["VERIF_PARSE_BUDGET_MS"] = "60000"
+        subprocess.run([binary, rq, oc, "0"], capture_output=True, env=env)
+        if os.path.exists(oc):
+            with open(oc) as f:
+                for line in f:
+                    o = json.loads(line)
+                    res[o["rid"]] = o
     return res
 
 
